@@ -48,59 +48,79 @@ def run(ctx):
 
 
 def rule_lifting(ctx):
+    """transpose / augment / diminish on a container, a bar or a track: every Note reachable from it gets exactly that
+    operation once, with the parameters as given, in order; rests, beats, values, the order and identity of entries,
+    containers and bars stay as they were.  The real NoteContainer / Bar / Track code runs; only Note's own methods are
+    recording stubs -- how a level reaches the notes (through the level below, or directly) is its own business."""
     R = "R-C11-1"
     repo = ctx.repo
     ops = {"transpose": [Opaque("interval"), Opaque("up")], "augment": [], "diminish": []}
-    levels = [
-        (NC, "NoteContainer", "notes", NOTE, "Note", False),
-        (BAR, "Bar", "bar", NC, "NoteContainer", True),
-        (TRACK, "Track", "bars", BAR, "Bar", False),
-    ]
-    for cmod, cname, attr, emod, ename, entries in levels:
-        ci = repo.mod(cmod).cls(cname)
+    nci, bci, tci = repo.mod(NC).cls("NoteContainer"), repo.mod(BAR).cls("Bar"), repo.mod(TRACK).cls("Track")
+
+    def build(level):
+        notes = [stub(repo, NOTE, "Note", name="Note%d" % i) for i in range(8)]
+
+        def cont(*idx):
+            return AObj(nci, {"notes": [notes[i] for i in idx]}, name="cont%s" % "".join(map(str, idx)))
+        if level == "NoteContainer":
+            c = cont(0, 1, 2)
+            return c, notes[:3], [("list", c.attrs["notes"], list(c.attrs["notes"]))]
+
+        def bar(name, contents):
+            rows = [[Opaque("%s.beat%d" % (name, k)), Opaque("%s.value%d" % (name, k)), x] for k, x in enumerate(contents)]
+            return AObj(bci, {"bar": rows, "meter": (4, 4), "length": 1.0, "current_beat": 0.75}, name=name), rows
+        keep = []
+        if level == "Bar":
+            contents = [None, cont(0, 1), None, cont(2), cont(3, 4)]
+            b, rows = bar("bar", contents)
+            keep.append(("rows", rows, [list(r) for r in rows]))
+            keep += [("list", c.attrs["notes"], list(c.attrs["notes"])) for c in contents if c is not None]
+            return b, notes[:5], keep
+        ca, cb = [None, cont(0, 1), cont(2)], [cont(3), None, cont(4, 5, 6), cont(7)]
+        b1, r1 = bar("bar1", ca)
+        b2, r2 = bar("bar2", cb)
+        bars = [b1, b2]
+        t = AObj(tci, {"bars": bars}, name="track")
+        keep += [("bars", bars, list(bars)), ("rows", r1, [list(r) for r in r1]), ("rows", r2, [list(r) for r in r2])]
+        keep += [("list", c.attrs["notes"], list(c.attrs["notes"])) for c in ca + cb if c is not None]
+        return t, notes, keep
+    for level, ci in (("NoteContainer", nci), ("Bar", bci), ("Track", tci)):
         for op, args in ops.items():
             fi = repo.find_method(ci, op)
             if fi is None:
-                raise AnalysisError("%s.%s vanished" % (cname, op))
+                raise AnalysisError("%s.%s vanished" % (level, op))
             ctx.touch(fi)
-            summ = record_class(repo, emod, ename, [op])
-            elems = [stub(repo, emod, ename, name="%s%d" % (ename, i)) for i in range(3)]
-            if entries:
-                beats = [Opaque("beat%d" % i) for i in range(5)]
-                vals = [Opaque("value%d" % i) for i in range(5)]
-                content = [None, elems[0], None, elems[1], elems[2]]
-                coll = [[beats[i], vals[i], content[i]] for i in range(5)]
-                snapshot = [list(e) for e in coll]
-            else:
-                coll = list(elems)
-                snapshot = list(coll)
-            obj = AObj(ci, {attr: coll}, name=cname)
+            summ = record_class(repo, NOTE, "Note", [op])
+            holder = {}
+
+            def mk(level=level, args=args):
+                holder["v"] = build(level)
+                return [holder["v"][0]] + list(args)
             try:
-                paths = run_method(repo, fi, lambda: [obj] + list(args), summaries=summ)
+                paths = run_method(repo, fi, mk, summaries=summ, max_depth=30)
             except CannotDecide as e:
-                raise AnalysisError("%s.%s: %s" % (cname, op, e))
+                raise AnalysisError("%s.%s: %s" % (level, op, e))
             ok, why = len(paths) == 1 and paths[0].kind == "return", "outcome %s" % [(p.kind, p.value) for p in paths]
             if ok:
+                obj, notes, keep = holder["v"]
                 log = log_of(paths[0].interp)
-                calls = [(c[1][0], c[1][1:], c[2]) for c in log if c[0] == "%s.%s" % (ename, op)]
+                calls = [(c[1][0], c[1][1:], c[2]) for c in log if c[0] == "Note.%s" % op]
                 recv = [c[0] for c in calls]
-                if [id(x) for x in recv] != [id(x) for x in elems]:
-                    ok, why = False, "%s is applied to %s, expected once to each of the %d elements in order" % (
-                        op, [getattr(x, "name", x) for x in recv], len(elems))
-                elif any([id(a) for a in c[1]] + sorted(c[2]) != [id(a) for a in args] for c in calls) \
-                        and any(list(c[1]) + [c[2].get(k) for k in sorted(c[2])] != list(args) for c in calls):
-                    ok, why = False, "parameters are not forwarded unchanged: %s" % [(c[1], c[2]) for c in calls][:2]
+                if [id(x) for x in recv] != [id(x) for x in notes]:
+                    ok, why = False, "%s reaches the notes %s, expected each of the %d notes once, in order" % (
+                        op, [getattr(x, "name", x) for x in recv], len(notes))
+                elif any(list(c[1]) + [c[2].get(k) for k in sorted(c[2])] != list(args) for c in calls):
+                    ok, why = False, "parameters are not handed on unchanged: %s" % [(c[1], c[2]) for c in calls][:2]
                 else:
-                    if entries:
-                        now = obj.attrs.get(attr)
-                        same = now is coll and len(coll) == 5 and all(
-                            e[0] is s[0] and e[1] is s[1] and e[2] is s[2] for e, s in zip(coll, snapshot))
-                    else:
-                        now = obj.attrs.get(attr)
-                        same = now is coll and [id(x) for x in coll] == [id(x) for x in snapshot]
-                    if not same:
-                        ok, why = False, "the container's own slots (beats, values, rests, element order) were modified"
-            ctx.check(ok, R, "%s.%s" % (cname, op), fi.where(), "%s.%s(%s)" % (cname, op, ", ".join(a.tag for a in args)), why)
+                    for kind, cur, snap in keep:
+                        if kind == "rows":
+                            same = len(cur) == len(snap) and all(len(e) == 3 and e[0] is s0[0] and e[1] is s0[1] and e[2] is s0[2] for e, s0 in zip(cur, snap))
+                        else:
+                            same = len(cur) == len(snap) and all(a is b_ for a, b_ in zip(cur, snap))
+                        if not same:
+                            ok, why = False, "the skeleton was modified (beats, values, rests, or the order / identity of entries, notes or bars)"
+                            break
+            ctx.check(ok, R, "%s.%s" % (level, op), fi.where(), "%s.%s(%s)" % (level, op, ", ".join(a.tag for a in args)), why)
     # rest detection
     bi = repo.mod(BAR).cls("Bar")
     isn = repo.find_method(bi, "_is_note")
